@@ -7,6 +7,7 @@
      fixed    - clip of rfbShowCursor/rfbHideCursor    (F15,  /repo commit 1a3b6d2)
      v_empty  - cursor without pixels in rfbSendCursorShape (F15b, /repo commit 0775c26)
      v_switch - SetEncodings that withdraws cursor-shape support (F15c, /repo commit 2b32386)
+     v_cache  - (use_shared) false = the tree, true = proposed repair notes/fix_C15_4.diff (F15d)
    The correspondence run executes the model with all three = true. *)
 From LV Require Import Cursor.CursorDefs Cursor.CursorProofs Cursor.CursorSession Cursor.CursorSessionProofs
   Cursor.CursorMaskProofs Cursor.CursorShapeProofs Gen.Consts_C15.
@@ -79,6 +80,24 @@ Theorem C15_redraw_covers_all_clients : forall fixed v_empty fmt cls s s' res,
   sfb s' = sfb s /\ wf_ocursor (scur s') /\ ocursor_equiv fmt (scur s) (scur s') /\
   Forall (Inv fixed fmt s') (map fst res).
 Proof. exact inv_pump. Qed.
+
+(* the application replaces the cursor from its displayHook at the head of rfbSendFramebufferUpdate
+   (rfbSetCursor during an update, possibly one whose write fails): the framebuffer is restored, and
+   when the writes succeed every client keeps its invariant, over a whole round of the event loop *)
+Theorem C15_update_with_hook_restores_fb : forall fixed v_empty fmt hook s cls k s' cls' o fired,
+  wf_fb (sfb s) -> wf_ocursor (scur s) ->
+  (forall hk nc, hook = Some (hk, nc) -> wf_ocursor nc) ->
+  update_one fixed v_empty fmt hook s cls k = Some (s', cls', o, fired) -> sfb s' = sfb s.
+Proof. exact update_one_restores. Qed.
+
+Theorem C15_redraw_covers_with_hook : forall k fixed v_empty fmt hook s cls outs s' cls' outs' fired,
+  wf_fb (sfb s) -> wf_ocursor (scur s) ->
+  (forall hk nc, hook = Some (hk, nc) -> wf_ocursor nc) ->
+  Forall (fun cl => failnext cl = false) cls ->
+  Forall (Inv fixed fmt s) cls ->
+  pump_rounds k fixed v_empty fmt hook s cls outs = Some (s', cls', outs', fired) ->
+  sfb s' = sfb s /\ wf_ocursor (scur s') /\ Forall (Inv fixed fmt s') cls'.
+Proof. exact inv_pump_rounds. Qed.
 
 Theorem C15_picture_converges : forall fixed v_empty fmt s cl s' cl' o,
   wf_fb (sfb s) -> wf_ocursor (scur s) -> failnext cl = false ->
@@ -207,3 +226,20 @@ Theorem C15_shape_message_empty_old_refuted :
     cw c = 0 /\ shape_msg false false fmt (Some c) = Some (oc', bytes) /\
     Z.of_nat (length bytes) <> 12 + rfb_cursor_payload_len false (bpp fmt) (cw c) (ch c).
 Proof. exact shape_message_empty_refuted. Qed.
+
+(* ---------------------------------------------------------------- one cursor object, several screens *)
+(* C15_rich_cache_matches_format (proposed repair fix_C15_4: every screen has its own copy of the
+   built-in cursor): the rich form a screen works with was derived for that screen's format *)
+Theorem C15_rich_cache_matches_format : forall tag fmt c c' r,
+  tag <> None ->
+  ensure_rich fmt (use_shared true tag fmt c) = Some (c', r) ->
+  make_rich_from_x fmt c = Some r.
+Proof. exact rich_cache_matches_format. Qed.
+
+(* F15d - the tree: the built-in cursor (static, shared by all screens of the process) keeps the rich
+   form derived for the first screen; a screen with larger pixels reads beyond that buffer *)
+Theorem C15_rich_cache_old_refuted :
+  exists c1 r1, ensure_rich fmt8 default_cursor = Some (c1, r1) /\
+    show true fmt32 (mkfb 12 9 (repeat (repeat 0 12) 9)) (use_shared false (Some (bpp fmt8)) fmt32 c1) 5 4 [] = None /\
+    exists res, show true fmt32 (mkfb 12 9 (repeat (repeat 0 12) 9)) (use_shared true (Some (bpp fmt8)) fmt32 c1) 5 4 [] = Some res.
+Proof. exact rich_cache_old_refuted. Qed.
